@@ -701,6 +701,288 @@ def _rewrite_find(body, i, verdicts, orig_of, start_chars):
     return True
 
 
+# --------------------------- I5: search for a character class (regex)
+def _class_of_pattern(pat):
+    """the set of characters of a pattern that is one positive character
+    class of literals (``[ \\t\\n\\r();]``), else None"""
+    try:
+        import re._parser as sp
+    except ImportError:  # pragma: no cover
+        import sre_parse as sp
+    try:
+        items = list(sp.parse(pat))
+    except Exception:
+        return None
+    if len(items) != 1:
+        return None
+    op, av = items[0]
+    if str(op) == 'LITERAL':
+        return {chr(av)}
+    if str(op) != 'IN':
+        return None
+    out = set()
+    for o, a in av:
+        if str(o) == 'LITERAL':
+            out.add(chr(a))
+        elif str(o) == 'RANGE' and a[1] - a[0] < 64:
+            out |= {chr(x) for x in range(a[0], a[1] + 1)}
+        else:
+            return None
+    return out or None
+
+
+def _class_search(st, m):
+    """(result name, chars, start expression) for
+    ``D = <compiled class>.search(text, <start>)``"""
+    if not (isinstance(st, ast.Assign) and len(st.targets) == 1
+            and isinstance(st.targets[0], ast.Name)
+            and isinstance(st.value, ast.Call)):
+        return None
+    c = st.value
+    pat = None
+    if isinstance(c.func, ast.Attribute) and c.func.attr == 'search' and \
+            isinstance(c.func.value, ast.Name) and 1 <= len(
+                c.args) <= 2 and not c.keywords and isinstance(
+                    c.args[0], ast.Name) and c.args[0].id == 'text':
+        ds = m.globals.get(c.func.value.id, [])
+        if len(ds) == 1 and isinstance(ds[0], ast.Call) and unparse(
+                ds[0].func) == 're.compile' and len(
+                    ds[0].args) == 1 and isinstance(
+                        ds[0].args[0], ast.Constant) and isinstance(
+                            ds[0].args[0].value, str):
+            pat = ds[0].args[0].value
+        start = c.args[1] if len(c.args) == 2 else ast.Constant(value=0)
+    if pat is None:
+        return None
+    chars = _class_of_pattern(pat)
+    if chars is None:
+        raise AnalysisError(
+            f'scanner idiom: the pattern {pat!r} searched in the text is '
+            'not a single class of literal characters')
+    return st.targets[0].id, chars, start
+
+
+def _rewrite_class_search(body, i, verdicts, m):
+    st0 = body[i]
+    dname, chars, start = _class_search(st0, m)
+    base = {'pos': {'p0': 1}, 'size': {'size': 1}}
+    sfrom = _norm(_lin(start, base))
+    ok_start = sfrom == {'p0': 1}
+    verdicts.append(Verdict(
+        ok_start, f'search for {sorted(chars)!r} starts at {_fmt(sfrom)}',
+        'the search for the end of the token starts at '
+        f'{_fmt(sfrom).replace("p0", "pos")}, the first character after the '
+        'one that opened the token is at pos', st0))
+    # region: statements that mention the match object or assign pos
+    last = i
+    for j in range(i + 1, len(body)):
+        names = {x.id for x in ast.walk(body[j]) if isinstance(x, ast.Name)}
+        stores = {x.id for x in ast.walk(body[j])
+                  if isinstance(x, ast.Name) and isinstance(x.ctx,
+                                                            ast.Store)}
+        if dname in names or 'pos' in stores:
+            last = j
+    region = body[i + 1:last + 1]
+    pre_env = {}
+    for j in range(i - 1, -1, -1):
+        pst = body[j]
+        if isinstance(pst, ast.Assign) and len(pst.targets) == 1 and \
+                isinstance(pst.targets[0], ast.Name) and \
+                pst.targets[0].id not in ('pos', 'size', 'char', 'text'):
+            try:
+                pre_env[pst.targets[0].id] = _lin(pst.value, base)
+                continue
+            except (AnalysisError, _NeedCase, KeyError, TypeError):
+                break
+        break
+
+    def const_tuple(e):
+        if isinstance(e, ast.Name) and len(m.globals.get(e.id, [])) == 1:
+            e = m.globals[e.id][0]
+        if isinstance(e, (ast.Tuple, ast.List, ast.Set)) and all(
+                isinstance(x, ast.Constant) for x in e.elts):
+            return [x.value for x in e.elts]
+        if isinstance(e, ast.Constant) and isinstance(e.value, str):
+            return list(e.value)
+        return None
+
+    wrapper = [None]
+
+    def specialise(stmts, tch):
+        """copy of the region with the match object resolved for the case
+        'not found' (tch None) / 'found at e with character tch'"""
+        class S(ast.NodeTransformer):
+
+            def visit_Call(self_, n):
+                n = self_.generic_visit(n)
+                if isinstance(n.func, ast.Attribute) and isinstance(
+                        n.func.value, ast.Name) and \
+                        n.func.value.id == dname and tch is not None:
+                    if n.func.attr == 'start' and not n.args:
+                        return ast.Name(id='__e', ctx=ast.Load())
+                    if n.func.attr == 'end' and not n.args:
+                        return ast.BinOp(left=ast.Name(id='__e',
+                                                       ctx=ast.Load()),
+                                         op=ast.Add(),
+                                         right=ast.Constant(value=1))
+                    if n.func.attr == 'group' and (not n.args or (
+                            len(n.args) == 1 and isinstance(
+                                n.args[0], ast.Constant)
+                            and n.args[0].value == 0)):
+                        return ast.Constant(value=tch)
+                if isinstance(n.func, ast.Name) and n.func.id == 'Node' \
+                        and len(n.args) == 1 and not n.keywords:
+                    wrapper[0] = 'Node'
+                    return n.args[0]
+                return n
+
+            def visit_Subscript(self_, n):
+                n = self_.generic_visit(n)
+                if isinstance(n.value, ast.Name) and n.value.id == dname \
+                        and isinstance(n.slice, ast.Constant) and \
+                        n.slice.value == 0 and tch is not None:
+                    return ast.Constant(value=tch)
+                return n
+
+            def visit_Compare(self_, n):
+                n = self_.generic_visit(n)
+                if len(n.ops) == 1 and isinstance(
+                        n.left, ast.Name) and n.left.id == dname and \
+                        isinstance(n.comparators[0], ast.Constant) and \
+                        n.comparators[0].value is None:
+                    if isinstance(n.ops[0], (ast.Is, ast.Eq)):
+                        return ast.Constant(value=tch is None)
+                    if isinstance(n.ops[0], (ast.IsNot, ast.NotEq)):
+                        return ast.Constant(value=tch is not None)
+                return n
+
+        return [S().visit(clone(x)) for x in stmts]
+
+    def run(stmts, env, senv, tch):
+        for st in stmts:
+            if isinstance(st, ast.If):
+                t = st.test
+                val = None
+                neg = False
+                while isinstance(t, ast.UnaryOp) and isinstance(t.op,
+                                                                ast.Not):
+                    neg = not neg
+                    t = t.operand
+                if isinstance(t, ast.Constant):
+                    val = bool(t.value)
+                elif isinstance(t, ast.Name) and t.id == dname:
+                    val = tch is not None
+                elif isinstance(t, ast.Compare) and len(t.ops) == 1 and \
+                        isinstance(t.ops[0], (ast.In, ast.NotIn, ast.Eq,
+                                              ast.NotEq)):
+                    l_ = t.left
+                    # text[<e>] is the character found
+                    if isinstance(l_, ast.Subscript) and isinstance(
+                            l_.value, ast.Name) and l_.value.id == 'text' \
+                            and tch is not None:
+                        try:
+                            if _eq(_lin(l_.slice, env), {'e': 1}):
+                                l_ = ast.Constant(value=tch)
+                        except (AnalysisError, _NeedCase):
+                            pass
+                    if isinstance(l_, ast.Constant):
+                        rhs = const_tuple(t.comparators[0])
+                        if rhs is not None:
+                            if isinstance(t.ops[0], (ast.In, ast.NotIn)):
+                                val = l_.value in rhs
+                            else:
+                                val = [l_.value] == rhs or (
+                                    len(rhs) == 1 and l_.value == rhs[0])
+                            if isinstance(t.ops[0], (ast.NotIn, ast.NotEq)):
+                                val = not val
+                if val is None:
+                    raise AnalysisError(
+                        f'scanner idiom: test "{unparse(st.test)}" on the '
+                        'result of a class search cannot be decided')
+                if neg:
+                    val = not val
+                run(st.body if val else st.orelse, env, senv, tch)
+            else:
+                _exec_region([st], env, senv, tch is not None)
+
+    results = {}
+    for tch in [None] + sorted(chars):
+        env = dict(base)
+        env.update(pre_env)
+        env['__e'] = {'e': 1}
+        senv = {}
+        run(specialise(region, tch), env, senv, tch)
+        results[tch] = (env, senv)
+    lexnames = None
+    for tch, (env, senv) in results.items():
+        ln = set(senv)
+        lexnames = ln if lexnames is None else lexnames & ln
+    if not lexnames or len(lexnames) != 1:
+        raise AnalysisError('scanner idiom: class-search region does not '
+                            'define exactly one lexeme string '
+                            f'(found {sorted(lexnames or [])})')
+    lex = sorted(lexnames)[0]
+    consumed, pushed = [], []
+    for tch, (env, senv) in results.items():
+        found = tch is not None
+        got = _simplify(senv[lex], False, '')
+        want = [('slice', {'p0': 1, 1: -1},
+                 {'e': 1} if found else {'size': 1})]
+        same = len(got) == 1 and got[0][0] == 'slice' and _eq(
+            got[0][1], want[0][1]) and _eq(got[0][2], want[0][2])
+        case = (f'the token ends at e with {tch!r}' if found
+                else 'no delimiter before the end of the text')
+        verdicts.append(Verdict(
+            same, f'token when {case}',
+            f'when {case} the token is {_show(got)}, the character loop '
+            f'yields {_show(want)} (p0 = pos on entry)'.replace(
+                'p0 - 1', 'pos-1'), st0))
+        gotpos = env.get('pos')
+        if not found:
+            okp = gotpos is not None and _eq(gotpos, {'size': 1})
+            verdicts.append(Verdict(
+                okp, f'cursor when {case}',
+                f'when {case} scanning resumes at '
+                f'{_fmt(gotpos) if gotpos else "?"}, it must resume at '
+                'size', st0))
+        else:
+            if gotpos is not None and _eq(gotpos, {'e': 1, 1: 1}):
+                consumed.append(tch)
+            elif gotpos is not None and _eq(gotpos, {'e': 1}):
+                pushed.append(tch)
+            else:
+                verdicts.append(Verdict(
+                    False, f'cursor when {case}',
+                    f'when {case} scanning resumes at '
+                    f'{_fmt(gotpos) if gotpos else "?"}; it must resume at '
+                    'e (the delimiter is looked at again) or e + 1 (it is '
+                    'consumed)', st0))
+                pushed.append(tch)
+    buf = '__cls_buf'
+    src = (f'{buf} = [char]\n'
+           'while True:\n'
+           '    if pos >= size:\n'
+           '        break\n'
+           '    char = text[pos]\n'
+           '    pos += 1\n')
+    if consumed:
+        src += (f'    if char in {tuple(consumed)!r}:\n'
+                '        break\n')
+    if pushed:
+        src += (f'    if char in {tuple(pushed)!r}:\n'
+                '        pos -= 1\n'
+                '        break\n')
+    src += f'    {buf}.append(char)\n'
+    if wrapper[0]:
+        src += f"{lex} = {wrapper[0]}(''.join({buf}))\n"
+    else:
+        src += f"{lex} = ''.join({buf})\n"
+    new = _parse(src)
+    _copy_loc(new, st0)
+    body[i:last + 1] = new
+    return True
+
+
 # ---------------------------------------------------- I2': find and jump
 def _is_find_jump(body, i):
     """body[i:i+3] ==  E = text.find(Q, pos) ; if E < 0: <leave> ;
@@ -1227,6 +1509,13 @@ def normalised_scanner(m, fname='parse_smtlib'):
                     if not _rewrite_index_scan_buf(body, i):
                         _rewrite_index_scan(body, i, verdicts, orig_of)
                     notes.append('index scan rewritten to a '
+                                 f'character loop (line {st.lineno})')
+                    changed = True
+                    break
+                if _class_search(st, m) is not None:
+                    _rewrite_class_search(body, i, verdicts, m)
+                    notes.append('search for a character class (compiled '
+                                 'regular expression) rewritten to a '
                                  f'character loop (line {st.lineno})')
                     changed = True
                     break
